@@ -1101,6 +1101,200 @@ theorem truthETest_correct (L : Layout) (g : GState) (e : GExpr) (negate : Bool)
     have := h12.trans (h3.cast (by len_arith) rfl)
     simpa [evalCond_cmp, evalCond_truth, evalCond_nottruth, evalCond_cmpE, evalCond_truthE, evalCond_not, evalCond_and, evalCond_or, condEff_cmp, condEff_truth, condEff_nottruth, condEff_cmpE, condEff_truthE, condEff_not, condEff_and, condEff_or, bne, List.length_append, hlen, Nat.add_assoc] using this
 
+/-! ### 16-bit (in)equality (stage 14) -/
+
+/-- `LDA x ; SBC y` after the low pass: the high difference with the borrow, Z describing it -/
+theorem ldaSbc_exec (L : Layout) (c : Cpu) (x y : Atom) :
+    ∃ c2, execSeq c [(Mn.LDA, opd L x), (Mn.SBC, opd L y)] = some c2 ∧
+      c2.a = highRes .sub c.f.c (val L c.mem c.x c.y x) (val L c.mem c.x c.y y) ∧ srcOf c2 = srcOf c ∧ c2.sp = c.sp ∧ GenReg.ZA c2 := by
+  have hx := rd_opd L c x
+  have hy := rd_opd L { c with a := val L c.mem c.x c.y x, f := Cpu.setNZ c.f (val L c.mem c.x c.y x) } y
+  refine ⟨({ c with a := val L c.mem c.x c.y x, f := Cpu.setNZ c.f (val L c.mem c.x c.y x) } : Cpu).sbc (val L c.mem c.x c.y y),
+    by simp [execSeq, Cpu.exec, hx, hy], ?_, ?_, ?_, ?_⟩
+  · simp [sbc_a, highRes, Cpu.setNZ]
+  · simp [srcOf, Cpu.sbc, Cpu.adc]
+  · simp [Cpu.sbc, Cpu.adc]
+  · simp [GenReg.ZA, Cpu.sbc, Cpu.adc, Cpu.setNZ]
+
+/-- the two byte passes of a 16-bit (in)equality: the state `wcmpRun` describes, the high difference in A with Z -/
+theorem wcmpPre_run (L : Layout) (s : String) (w : WA) (c : Cpu) :
+    ∃ c2, execSeq c ((wcmpPre s w).map fun p => (p.1, opdOf L p.2)) = some c2 ∧ srcOf c2 = (wcmpRun L (srcOf c) s w).2 ∧
+      c2.sp = c.sp ∧ GenReg.ZA c2 ∧
+      ((c2.a != 0) || ((srcOf c2).mem.read (L "cctmp") != 0)) = (wcmpRun L (srcOf c) s w).1 := by
+  by_cases hw : w = .wconst 0
+  · subst hw
+    have h1 := rd_opd L c (.var s)
+    refine ⟨{ c with mem := c.mem.write (L "cctmp") (c.mem.read (L s)),
+                     a := (c.mem.write (L "cctmp") (c.mem.read (L s))).read (L s + 1),
+                     f := Cpu.setNZ (Cpu.setNZ c.f (c.mem.read (L s))) ((c.mem.write (L "cctmp") (c.mem.read (L s))).read (L s + 1)) }, ?_, ?_, rfl, ?_, ?_⟩
+    · simp [wcmpPre, execSeq, Cpu.exec, opdOf, opd, tmp, hiCell, Cpu.rd, Cpu.ea, val]
+    · simp [srcOf, wcmpRun, lowRes, setTmp, WA.lo, val]
+    · simp [GenReg.ZA, Cpu.setNZ]
+    · simp [srcOf, wcmpRun, lowRes, highRes, setTmp, WA.lo, WA.hi, val, hiCell, elAddr]
+  · have hne : (w == WA.wconst 0) = false := by simpa using hw
+    obtain ⟨c1, e1, m1, x1, y1, p1, cf1⟩ := lowPass_exec L c "cctmp" .sub (.var s) w.lo true (by intro h; cases h)
+    obtain ⟨c2, e2, a2, m2, p2, z2⟩ := ldaSbc_exec L c1 (hiCell s) w.hi
+    have hcode : (wcmpPre s w).map (fun p => (p.1, opdOf L p.2))
+        = ([(Mn.LDA, opd L (.var s))] ++ (carryOf .sub).map (fun m => (m, Opd.none)) ++
+            (if true then (mainOf .sub).map fun m => (m, opd L w.lo) else []) ++ [(Mn.STA, opd L (.var "cctmp"))]) ++
+          [(Mn.LDA, opd L (hiCell s)), (Mn.SBC, opd L w.hi)] := by
+      have hw' : ¬ w = WA.wconst 0#16 := hw
+      simp [wcmpPre, hw', opdOf, tmp, carryOf, mainOf, opd]
+    have hsrc1 : srcOf c1 = setTmp L (srcOf c) (lowRes .sub (c.mem.read (L s)) (val L c.mem c.x c.y w.lo)).1 := by
+      simp only [srcOf, setTmp, m1, x1, y1, p1, val]
+    refine ⟨c2, ?_, ?_, by rw [p2, p1], z2, ?_⟩
+    · rw [hcode, execSeq_append', e1]; simpa using e2
+    · rw [m2, hsrc1]; simp [wcmpRun, srcOf, val]
+    · rw [m2, hsrc1, a2, cf1 (Or.inr rfl)]
+      have hv : ∀ a : Atom, val L c1.mem c1.x c1.y a = val L (setTmp L (srcOf c) (lowRes .sub (c.mem.read (L s)) (val L c.mem c.x c.y w.lo)).1).mem
+          (setTmp L (srcOf c) (lowRes .sub (c.mem.read (L s)) (val L c.mem c.x c.y w.lo)).1).x
+          (setTmp L (srcOf c) (lowRes .sub (c.mem.read (L s)) (val L c.mem c.x c.y w.lo)).1).y a := by
+        intro a; rw [← hsrc1]; rfl
+      rw [hv, hv]
+      simp [wcmpRun, srcOf, val]
+
+/-- `LDA cctmp` as one line -/
+theorem ldaTmp_step (L : Layout) (c : Cpu) :
+    ∃ c3, c.exec .LDA (opdOf L (some tmp)) = some c3 ∧ srcOf c3 = srcOf c ∧ c3.sp = c.sp ∧
+      c3.f.z = ((srcOf c).mem.read (L "cctmp") == 0) := by
+  refine ⟨{ c with a := c.mem.read (L "cctmp"), f := Cpu.setNZ c.f (c.mem.read (L "cctmp")) }, ?_, rfl, rfl, ?_⟩
+  · simp [Cpu.exec, opdOf, opd, tmp, Cpu.rd, Cpu.ea]
+  · simp [Cpu.setNZ, srcOf]
+
+theorem wcmpTest_correct (L : Layout) (g : GState) (ne : Bool) (s : String) (w : WA) (negate : Bool) (label : Lbl) :
+    CondSpec L g (wcmpTest g ne s w negate label) label (fun m => evalCond L m (.wcmp ne s w) != negate)
+      (fun m => (wcmpRun L m s w).2) := by
+  intro pre post c t hold hinv hl
+  obtain ⟨c2, he, hsrc, hsp, hza, hD⟩ := wcmpPre_run L s w c
+  let pl : List GLine := (wcmpPre s w).map fun p => GLine.ins p.1 p.2
+  have hlenpl : (wcmpPre s w).length = pl.length := by simp [pl]
+  have hz2 : c2.f.z = (c2.a == 0) := hza
+  obtain ⟨c3, e3, m3, p3, z3⟩ := ldaTmp_step L c2
+  simp only [bne] at hD
+  by_cases hform : (ne != negate) = true
+  · -- jump on "different"
+    have hj : ∀ m : SrcSt, (evalCond L m (.wcmp ne s w) != negate) = (wcmpRun L m s w).1 := by
+      intro m
+      rw [evalCond_wcmp]
+      cases ne <;> cases negate <;> simp at hform ⊢
+    let tail : List GLine := [.br .BNE label, .ins .LDA (some tmp), .br .BNE label]
+    have hcode : (wcmpTest g ne s w negate label).1 = pl ++ tail := by simp [wcmpTest, hform, pl, tail]
+    have hstt : (wcmpTest g ne s w negate label).2.flags = none := by simp [wcmpTest, hform]
+    rw [hcode] at hl ⊢
+    simp only [hj]
+    have h12 := steps_of_execSeq L (wcmpPre s w) pre (tail ++ post) c c2 he
+    have w1 : pre ++ pl ++ (tail ++ post) = pre ++ (pl ++ tail) ++ post := by simp
+    rw [show (wcmpPre s w).map (fun p => GLine.ins p.1 p.2) = pl from rfl, w1, hlenpl] at h12
+    have hk0 : (pl ++ tail)[pl.length + 0]? = some (.br .BNE label) := by simp [tail]
+    have hk1 : (pl ++ tail)[pl.length + 1]? = some (.ins .LDA (some tmp)) := by simp [tail]
+    have hk2 : (pl ++ tail)[pl.length + 2]? = some (.br .BNE label) := by simp [tail]
+    have hb0 := br_step L pre (pl ++ tail) post (pl.length + 0) .BNE label c2 (!(c2.a == 0)) t hk0 (by simp [Cpu.taken, hz2]) hl
+    have hi1 := ins_step L pre (pl ++ tail) post (pl.length + 1) _ _ c2 c3 hk1 e3
+    have hb2 := br_step L pre (pl ++ tail) post (pl.length + 2) .BNE label c3 (!((srcOf c2).mem.read (L "cctmp") == 0)) t hk2
+      (by simp [Cpu.taken, z3]) hl
+    have hend : pre.length + (pl ++ tail).length = pre.length + (pl.length + 2) + 1 := by simp [tail]; omega
+    rw [← hD, hend]
+    generalize (c2.a == 0) = A at hb0 ⊢
+    generalize ((srcOf c2).mem.read (L "cctmp") == 0) = T at hb2 ⊢
+    cases A with
+    | false =>
+      simp only [Bool.not_false, if_true] at hb0
+      refine ⟨c2, ?_, hsrc, hsp, by rw [hstt]; trivial⟩
+      simp only [Bool.not_false, Bool.true_or, if_true]
+      exact h12.trans (hb0.cast (by omega) rfl)
+    | true =>
+      simp only [Bool.not_true, Bool.false_eq_true, if_false] at hb0
+      refine ⟨c3, ?_, by rw [m3]; exact hsrc, by rw [p3, hsp], by rw [hstt]; trivial⟩
+      cases T with
+      | false =>
+        simp only [Bool.not_false, if_true] at hb2
+        simp only [Bool.not_true, Bool.not_false, Bool.false_or, if_true]
+        have hb0c : Steps L (pre ++ (pl ++ tail) ++ post) (pre.length + pl.length) c2 (pre.length + pl.length + 1) c2 :=
+          hb0.cast (by omega) (by omega)
+        have hi1c : Steps L (pre ++ (pl ++ tail) ++ post) (pre.length + pl.length + 1) c2 (pre.length + pl.length + 2) c3 :=
+          hi1.cast (by omega) (by omega)
+        exact ((h12.trans hb0c).trans hi1c).trans (hb2.cast (by omega) rfl)
+      | true =>
+        simp only [Bool.not_true, Bool.false_eq_true, if_false] at hb2
+        simp only [Bool.not_true, Bool.or_self, Bool.false_eq_true, if_false]
+        have hb0c : Steps L (pre ++ (pl ++ tail) ++ post) (pre.length + pl.length) c2 (pre.length + pl.length + 1) c2 :=
+          hb0.cast (by omega) (by omega)
+        have hi1c : Steps L (pre ++ (pl ++ tail) ++ post) (pre.length + pl.length + 1) c2 (pre.length + pl.length + 2) c3 :=
+          hi1.cast (by omega) (by omega)
+        exact ((h12.trans hb0c).trans hi1c).trans (hb2.cast (by omega) (by omega))
+  · -- jump on "equal": over the `.ifstart` label
+    have hform' : (ne != negate) = false := by simpa using hform
+    have hj : ∀ m : SrcSt, (evalCond L m (.wcmp ne s w) != negate) = !(wcmpRun L m s w).1 := by
+      intro m
+      rw [evalCond_wcmp]
+      cases ne <;> cases negate <;> simp at hform' ⊢
+    generalize hst : (⟨.ifstart, g.cIf⟩ : Lbl) = st
+    let tail : List GLine := [.br .BNE st, .ins .LDA (some tmp), .br .BEQ label, .lab st]
+    have hcode : (wcmpTest g ne s w negate label).1 = pl ++ tail := by simp [wcmpTest, hform', pl, tail, hst]
+    have hstt : (wcmpTest g ne s w negate label).2.flags = none := by simp [wcmpTest, hform']
+    rw [hcode] at hl ⊢
+    simp only [hj]
+    have h12 := steps_of_execSeq L (wcmpPre s w) pre (tail ++ post) c c2 he
+    have w1 : pre ++ pl ++ (tail ++ post) = pre ++ (pl ++ tail) ++ post := by simp
+    rw [show (wcmpPre s w).map (fun p => GLine.ins p.1 p.2) = pl from rfl, w1, hlenpl] at h12
+    have hnot : st ∉ labels (pre ++ pl ++ [GLine.br .BNE st, GLine.ins .LDA (some tmp), GLine.br .BEQ label]) := by
+      simp only [labels_append, List.mem_append, not_or]
+      refine ⟨⟨?_, ?_⟩, ?_⟩
+      · intro hin
+        have := hold _ hin
+        rw [← hst] at this
+        simp [LKind.ctr, GState.ctr, Lbl.idx] at this
+        omega
+      · simp [pl, labels_insLines]
+      · simp [labels]
+    have w0 : pre ++ (pl ++ tail) ++ post
+        = (pre ++ pl ++ [GLine.br .BNE st, GLine.ins .LDA (some tmp), GLine.br .BEQ label]) ++ GLine.lab st :: post := by
+      simp [tail]
+    have hfind : findLbl (pre ++ (pl ++ tail) ++ post) st = some (pre.length + (pl.length + 3)) := by
+      rw [w0, findLbl_at _ _ _ hnot]; congr 1; len_arith
+    have hk0 : (pl ++ tail)[pl.length + 0]? = some (.br .BNE st) := by simp [tail]
+    have hk1 : (pl ++ tail)[pl.length + 1]? = some (.ins .LDA (some tmp)) := by simp [tail]
+    have hk2 : (pl ++ tail)[pl.length + 2]? = some (.br .BEQ label) := by simp [tail]
+    have hk3 : (pl ++ tail)[pl.length + 3]? = some (.lab st) := by simp [tail]
+    have hb0 := br_step L pre (pl ++ tail) post (pl.length + 0) .BNE st c2 (!(c2.a == 0)) _ hk0 (by simp [Cpu.taken, hz2]) hfind
+    have hi1 := ins_step L pre (pl ++ tail) post (pl.length + 1) _ _ c2 c3 hk1 e3
+    have hb2 := br_step L pre (pl ++ tail) post (pl.length + 2) .BEQ label c3 ((srcOf c2).mem.read (L "cctmp") == 0) t hk2
+      (by simp [Cpu.taken, z3]) hl
+    have hl3 : ∀ cc : Cpu, Steps L (pre ++ (pl ++ tail) ++ post) (pre.length + (pl.length + 3)) cc (pre.length + (pl.length + 3) + 1) cc :=
+      fun cc => lab_step L pre (pl ++ tail) post (pl.length + 3) st cc hk3
+    have hend : pre.length + (pl ++ tail).length = pre.length + (pl.length + 3) + 1 := by simp [tail]; omega
+    rw [← hD, hend]
+    generalize (c2.a == 0) = A at hb0 ⊢
+    generalize ((srcOf c2).mem.read (L "cctmp") == 0) = T at hb2 ⊢
+    cases A with
+    | false =>
+      simp only [Bool.not_false, if_true] at hb0
+      refine ⟨c2, ?_, hsrc, hsp, by rw [hstt]; trivial⟩
+      simp only [Bool.not_false, Bool.true_or, Bool.not_true, Bool.false_eq_true, if_false]
+      exact (h12.trans (hb0.cast (by omega) rfl)).trans (hl3 c2)
+    | true =>
+      simp only [Bool.not_true, Bool.false_eq_true, if_false] at hb0
+      refine ⟨c3, ?_, by rw [m3]; exact hsrc, by rw [p3, hsp], by rw [hstt]; trivial⟩
+      cases T with
+      | false =>
+        simp only [Bool.false_eq_true, if_false] at hb2
+        simp only [Bool.not_true, Bool.not_false, Bool.false_or, Bool.false_eq_true, if_false]
+        have hb0c : Steps L (pre ++ (pl ++ tail) ++ post) (pre.length + pl.length) c2 (pre.length + pl.length + 1) c2 :=
+          hb0.cast (by omega) (by omega)
+        have hi1c : Steps L (pre ++ (pl ++ tail) ++ post) (pre.length + pl.length + 1) c2 (pre.length + pl.length + 2) c3 :=
+          hi1.cast (by omega) (by omega)
+        have hb2c : Steps L (pre ++ (pl ++ tail) ++ post) (pre.length + pl.length + 2) c3 (pre.length + (pl.length + 3)) c3 :=
+          hb2.cast (by omega) (by omega)
+        exact (((h12.trans hb0c).trans hi1c).trans hb2c).trans (hl3 c3)
+      | true =>
+        simp only [if_true] at hb2
+        simp only [Bool.not_true, Bool.or_self, Bool.not_false, if_true]
+        have hb0c : Steps L (pre ++ (pl ++ tail) ++ post) (pre.length + pl.length) c2 (pre.length + pl.length + 1) c2 :=
+          hb0.cast (by omega) (by omega)
+        have hi1c : Steps L (pre ++ (pl ++ tail) ++ post) (pre.length + pl.length + 1) c2 (pre.length + pl.length + 2) c3 :=
+          hi1.cast (by omega) (by omega)
+        exact ((h12.trans hb0c).trans hi1c).trans (hb2.cast (by omega) rfl)
+
 /-- the specification of condition code with several tests: as `CondSpec`, except that on the jumping exit
     the flag belief is claimed only when a single test jumps there (`single`) -/
 def CondSpecM (L : Layout) (g : GState) (r : List GLine × GState) (label : Lbl) (single : Bool) (jumpIf : SrcSt → Bool)
@@ -1256,6 +1450,9 @@ theorem genCond_correct (L : Layout) (c : Cond) : ∀ (g : GState) (negate : Boo
     intro g negate label hok
     simp only [CondOK, Bool.and_eq_true] at hok
     exact (cmpRTest_correct L g op e y eLeft negate label hok.1).toM
+  | wcmp ne s w =>
+    intro g negate label hok
+    exact (wcmpTest_correct L g ne s w negate label).toM
   | not c ih =>
     intro g negate label hok
     simp only [genCond, Cond.singleExit]
